@@ -293,3 +293,12 @@ pub fn server_start(
 
     Ok((ServerRef { core_ref, comm_ref }, future))
 }
+
+/// Verification hooks (feature `verif`): build a `ServerRef` around an existing core/comm pair
+/// (what `server_start` does, minus the sockets) and get the pair back.
+#[cfg(feature = "verif")]
+impl ServerRef {
+    pub(crate) fn verif_new(core_ref: CoreRef, comm_ref: CommSenderRef) -> Self {
+        ServerRef { core_ref, comm_ref }
+    }
+}
